@@ -47,7 +47,6 @@ int g_handed_over;             /* the record was given to the other party by an 
 int g_status_at_unlock, g_detached_at_unlock, g_detached_at_lock, g_status_at_lock;
 int g_detached_snap;           /* finisher harness: the value of T->detached (stable under the lock) */
 int g_status_at_release;       /* T->status when the record was released */
-int g_result_read_ok;          /* reaper: *result was stored (checked by the harness through res) */
 void * g_result;               /* the exit value agreed with the finisher */
 int g_queue_pops;
 int g_had_waiter;              /* finisher harness: a joiner was blocked on T */
@@ -246,7 +245,6 @@ static void b_cleanup(void) {
 }
 
 /* ================================================================ REAPER */
-void * RES_SINK;
 static void reaper_setup(void) {
   setup(ROLE_REAPER);
   int s = nondet_int(); __CPROVER_assume(0 <= s && s <= 3);
